@@ -1144,6 +1144,101 @@ func soak(r *hx.Rng, rounds int) {
 	}
 }
 
+// Mixed pools: gate transactions (RequestId != 0, ordered by request id) and json-rpc transactions
+// (RequestId 0, ordered by sender / nonce) pending together, gate senders' addresses on both sides of the
+// rpc sender's address with request ids correlated with the address, and the rpc sender holding a stale
+// (too-low nonce) transaction that arrived after its current-nonce one.  A comparator that orders a mixed
+// pair by anything but "rpc first" is inconsistent on such pools.
+func mixedCase(r *hx.Rng, cs *hx.Cases, idx int) {
+	regimes := []flags{{true, true, true, true}, {true, true, true, true}, {true, true, true, false}}
+	f := setFlags(regimes[r.Intn(len(regimes))])
+	g := &caseGen{r: r, f: f, lim: poolSize, byPtr: map[*types.Transaction]int{}, base: map[string]uint64{}, caseTag: fmt.Sprintf("mixed-%d", idx)}
+	mem, _ := db.NewMemDatabase()
+	g.pool = service.VerifNewTxPool(mem, poolSize)
+	addr := func(v uint64) string { return fmt.Sprintf("0x%040x", v) }
+	mid := uint64(1000 + r.Intn(1000))
+	x := addr(mid)
+	n := uint64(2 + r.Intn(6))
+	g.srcs = []string{x}
+	g.base[x] = n
+	add := func(tx *types.Transaction) {
+		copy(tx.Hash[:], r.Bytes(32))
+		i := g.addTbl(tx)
+		ok, err := g.pool.AddTransaction(tx)
+		ec := 0
+		if err != nil {
+			ec = 1
+		}
+		g.emit(fmt.Sprintf("SAdd %d %s %d", i, hx.CoqBool(ok), ec), map[string]interface{}{"op": "add", "tx": descTx(tx), "ok": ok}, true)
+	}
+	rpc := func(nonce uint64) *types.Transaction {
+		return &types.Transaction{Source: x, Target: x, Nonce: nonce, Type: 188, ChainId: "9500"}
+	}
+	// gate senders below and above the rpc sender; request ids rise with the address (or, sometimes, fall,
+	// or are random)
+	ng := 2 + r.Intn(4)
+	var gaddr []uint64
+	for k := 0; k < ng; k++ {
+		if k%2 == 0 {
+			gaddr = append(gaddr, mid-1-uint64(r.Intn(900)))
+		} else {
+			gaddr = append(gaddr, mid+1+uint64(r.Intn(900)))
+		}
+	}
+	sort.Slice(gaddr, func(i, j int) bool { return gaddr[i] < gaddr[j] })
+	mode := r.Intn(4)
+	var gates []*types.Transaction
+	for k, a := range gaddr {
+		rid := uint64(k + 1)
+		switch mode {
+		case 0:
+			rid = uint64(ng - k)
+		case 1:
+			rid = uint64(1 + r.Intn(50))
+		}
+		gates = append(gates, &types.Transaction{Source: addr(a), Target: x, Nonce: uint64(r.Intn(3)), RequestId: rid, Type: 188, ChainId: "9500"})
+	}
+	r0 := r.Intn(3)
+	if r0 == 0 { // the stale one first
+		add(rpc(n - 1 - uint64(r.Intn(int(n-1)))))
+	}
+	add(rpc(n))
+	for _, k := range permOf(r, len(gates)) {
+		if r.Intn(5) != 0 || mode != 3 {
+			add(gates[k])
+		}
+	}
+	if r0 != 0 {
+		add(rpc(n - 1 - uint64(r.Intn(int(n-1)))))
+	}
+	if r.Intn(2) == 0 {
+		add(rpc(n + 1))
+	}
+	g.plainPack = true
+	g.doPack()
+	g.plainPack = false
+	g.run(2 + r.Intn(6))
+	tb := make([]string, len(g.tbl))
+	for i, t := range g.tbl {
+		tb[i] = coqTx(t)
+	}
+	term := fmt.Sprintf("(%s, (%d, %d), [%s],\n  [%s])", f.coq(), g.lim, perBlock, strings.Join(tb, "; "), strings.Join(g.steps, ";\n   "))
+	cs.Add(term, map[string]interface{}{"case": "mixed gate/rpc pool", "flags": f.String(), "ops": g.js})
+	res.Count("seq:mixed-gate-rpc", fmt.Sprintf("%s|%s", f.String(), strings.Join(g.steps, ";")), true)
+}
+
+func permOf(r *hx.Rng, n int) []int {
+	p := make([]int, n)
+	for i := range p {
+		p[i] = i
+	}
+	for i := n - 1; i > 0; i-- {
+		j := r.Intn(i + 1)
+		p[i], p[j] = p[j], p[i]
+	}
+	return p
+}
+
 // the evicted-hash cache at its bound: more than txCacheSize (1000) evicted hashes, recency order, Remove
 func lruCase(r *hx.Rng, cs *hx.Cases, idx int) {
 	f := setFlags(flags{true, true, true, true})
@@ -1262,6 +1357,10 @@ func main() {
 		soakChildMain(a)
 		return
 	}
+	if os.Getenv("C17_CRASH_CHILD") != "" {
+		crashChildMain(a)
+		return
+	}
 	res = hx.NewResult("one evaluation = one operation sequence on a fresh pool (every step compared with the model); non-trivial = contains at least one mark-executed/unmark; distinct by (flags, limit, full step list)")
 	common.Init(0, "p.ini", "dev")
 	common.SetBlockHeight(100)
@@ -1285,9 +1384,12 @@ func main() {
 	for i := 0; i < nbig; i++ {
 		oneCase(r.Fork(), cs, a.N+i, true)
 	}
-	nlru := 1
+	nlru, nmixed := 1, 30
 	if a.Tier == "thorough" {
-		nlru = 4
+		nlru, nmixed = 4, 400
+	}
+	for i := 0; i < nmixed; i++ {
+		mixedCase(r.Fork(), cs, a.N+nbig+100+i)
 	}
 	for i := 0; i < nlru; i++ {
 		lruCase(r.Fork(), cs, a.N+nbig+i)
@@ -1311,6 +1413,7 @@ func main() {
 	// the free-running soaks run in a child process: corrupting a Go map under concurrent use is a fatal
 	// runtime error that no recover() catches, and it must become a reported violation, not a dead harness
 	runSoakChild(a, r.U64())
+	runCrashChild(a, r.U64())
 	if raceEnabled {
 		n := collectRaceReports(a.Out)
 		res.Note(fmt.Sprintf("race detector active (GORACE halt_on_error=0): %d report(s) in total", n))
